@@ -1,13 +1,14 @@
 """C11 -- connections never exceed max_connections and slots are reused (server ConnectionGuard)."""
-import itertools, json
+import itertools, json, os
 import vlib
 
 TRANSLATORS = ["connguard"]
 MODELS = ["connguard"]
 BINS = {"release": ["connguard"]}
-RULE = ("cases = scripts (limit 0..3, mode both/http-only/ws-only, a list of socket-level steps: open / body / release / "
+RULE = ("cases = scripts (limit 0..3, mode both/http-only/ws-only/both-with-ws-ping, a list of socket-level steps: open / body / release / "
         "reset / FIN / GET / burst for HTTP, open / bad handshake / early reset / call / release / close / reset / FIN / "
-        "invalid frame / close+reset for WebSocket) run against a real jsonrpsee_server::Server on 127.0.0.1:0 and replayed "
+        "invalid frame / close+reset / go silent until the server's ping-pong inactivity close (with and without a parked call) "
+        "for WebSocket) run against a real jsonrpsee_server::Server on 127.0.0.1:0 and replayed "
         "on the extracted Coq model; after every step the HTTP status read off the socket, "
         "ConnectionGuard::available_connections() and the number of handler invocations are compared.  Every script ends "
         "by closing everything and then filling the limit again (max opens served, one more refused).  Generated from: "
@@ -63,6 +64,8 @@ class Script:
     def op(self, op, i=None, k=2):
         f = self.free
         http_on, ws_on = self.mode != "ws", self.mode != "http"
+        if op == "wi":
+            assert self.mode == "ping"
         if op in ("ho", "hg", "wo", "wb", "we", "hu"):
             i = self.n
             self.n += k if op == "hu" else 1
@@ -112,7 +115,7 @@ class Script:
                 self.tok(op, i, "a%d" % f)
         elif op in ("wc", "wr"):
             self.tok(op, i, "a%d" % f)
-        elif op in ("wl", "wg", "wa", "wf", "wx"):
+        elif op in ("wl", "wg", "wa", "wf", "wx", "wi"):
             if i in self.ws:
                 self.ws.discard(i)
                 self.dead.append(i)
@@ -130,7 +133,7 @@ class Script:
             else:
                 self.op(rng.choice(["ha", "ha", "ha", "hf"]), i)
         for i in sorted(self.ws):
-            self.op(rng.choice(["wl", "wl", "wl", "wa", "wa", "wg", "wx", "wf"]), i)
+            self.op(rng.choice(["wl", "wl", "wl", "wa", "wa", "wg", "wx", "wf"] + (["wi"] * 4 if self.mode == "ping" else [])), i)
 
     def final(self, rng):
         """everything closed; now `max` fresh connections must be served and one more refused"""
@@ -152,6 +155,7 @@ class Script:
 
 
 ABSTRACT = ["ho", "hg", "wo", "wb", "we", "hb-new", "hr-old", "ha-old", "wl-old", "wa-new", "wc-new", "hu"]
+ABSTRACT_PING = ["ho", "wo", "hb-new", "hr-old", "wc-new", "wi-old", "wi-new", "wg-old", "wl-old"]
 
 
 def apply_abstract(s, a, rng):
@@ -171,6 +175,11 @@ def apply_abstract(s, a, rng):
         s.op(rng.choice(["wl", "wg"]), min(s.ws) if s.ws else (s.dead[0] if s.dead else 0))
     elif a == "wa-new":
         s.op(rng.choice(["wa", "wa", "wx", "wx", "wf"]), max(s.ws) if s.ws else (s.dead[-1] if s.dead else 0))
+    elif a in ("wi-old", "wi-new"):
+        pick = min if a == "wi-old" else max
+        s.op("wi", pick(s.ws) if s.ws else (s.dead[0] if s.dead else 0))
+    elif a == "wg-old":
+        s.op("wg", min(s.ws) if s.ws else (s.dead[0] if s.dead else 0))
     elif a == "wc-new":
         s.op("wc", max(s.ws) if s.ws else (s.dead[-1] if s.dead else 0))
 
@@ -193,17 +202,19 @@ def random_script(rng, mx, mode, length):
                 s.op(rng.choice(["hr", "hr", "hr", "ha", "hf", "hx"]), i)
         else:
             i = rng.choice(live_w)
-            s.op(rng.choice(["wc", "wc", "wr", "wl", "wa", "wf", "wg", "wx"]), i)
+            s.op(rng.choice(["wc", "wc", "wr", "wl", "wa", "wf", "wg", "wx"] + (["wi", "wi", "wi"] if mode == "ping" else [])), i)
     s.final(rng)
     return s
 
 
-EXIT_PATHS = ["hr", "ha-partial", "ha", "hf", "hx", "hg", "hu", "wb", "we", "wl", "wa", "wf", "wg", "wx", "wa-midcall", "refused"]
+EXIT_PATHS = ["hr", "ha-partial", "ha", "hf", "hx", "hg", "hu", "wb", "we", "wl", "wa", "wf", "wg", "wx", "wa-midcall",
+              "wg-midcall", "wl-midcall", "refused"]
+PING_PATHS = ["wi", "wi-midcall", "wi-released"]   # server's inactivity close: idle session / call parked / call finished
 
 
 def cycle_script(rng, mx, path, cycles):
     """fill the limit, get one refusal, leave by `path`; repeated"""
-    s = Script(mx, "both")
+    s = Script(mx, "ping" if path in PING_PATHS else "both")
     for _ in range(cycles):
         if path in ("hg", "wb", "we", "hu"):
             s.op(path, k=mx + 1)
@@ -217,15 +228,19 @@ def cycle_script(rng, mx, path, cycles):
                 ids.append(("h", i))
             else:
                 i = s.op("wo")
-                if path == "wa-midcall" and i in s.ws:
+                if path.endswith("-midcall") and i in s.ws:
                     s.op("wc", i)
+                if path == "wi-released" and i in s.ws:
+                    s.op("wc", i)
+                    s.op("wr", i)
                 ids.append(("w", i))
         s.op(rng.choice(["ho", "wo", "hg"]))   # the refused one
         for kind, i in ids:
             if kind == "h":
                 s.op({"hr": "hr", "ha-partial": "ha", "ha": "ha", "hf": "hf", "hx": "hx"}.get(path, "hr"), i)
             else:
-                s.op({"wl": "wl", "wa": "wa", "wf": "wf", "wg": "wg", "wx": "wx", "wa-midcall": "wa"}.get(path, "wl"), i)
+                s.op({"wl": "wl", "wa": "wa", "wf": "wf", "wg": "wg", "wx": "wx", "wa-midcall": "wa", "wg-midcall": "wg",
+                      "wl-midcall": "wl", "wi": "wi", "wi-midcall": "wi", "wi-released": "wi"}.get(path, "wl"), i)
     s.final(rng)
     return s
 
@@ -245,11 +260,28 @@ def gen_cases(ctx):
                     apply_abstract(s, a, rng)
                 s.final(rng)
                 cases.append(("exhaustive-len%d" % n, s))
+    # (1b) ws ping enabled: short sequences around the server's inactivity close (each `wi` costs ~0.45 s of wall time)
+    for mx in (1, 2):
+        for n in range(1, (3 if ctx.thorough else 2) + 1):
+            for seq in itertools.product(ABSTRACT_PING, repeat=n):
+                if "wi-old" not in seq and "wi-new" not in seq:
+                    continue
+                if n == 3 and rng.random() < 0.75:
+                    continue
+                s = Script(mx, "ping")
+                s.op("wo")
+                for a in seq:
+                    apply_abstract(s, a, rng)
+                s.final(rng)
+                cases.append(("ping-exhaustive-len%d" % n, s))
     # (2) random scripts
     for _ in range(ctx.scale(3000, 12000)):
         mx = rng.choice([0, 1, 1, 2, 2, 3, 3])
         mode = rng.choice(["both"] * 4 + ["http", "ws"])
         cases.append(("random-%s" % mode, random_script(rng, mx, mode, rng.randint(3, 28))))
+    for _ in range(ctx.scale(60, 600)):
+        mx = rng.choice([1, 1, 2, 2, 3])
+        cases.append(("random-ping", random_script(rng, mx, "ping", rng.randint(3, 16))))
     # (3) repetition: one exit path cycled
     reps, cyc = ctx.scale((4, 25), (64, 200))
     for path in EXIT_PATHS:
@@ -257,6 +289,11 @@ def gen_cases(ctx):
             for _ in range(reps if mx < 3 else max(1, reps // 2)):
                 cases.append(("cycle-" + path, cycle_script(rng, mx, path, cyc)))
         cases.append(("cycle-" + path, cycle_script(rng, 0, path, 3)))
+    preps, pcyc = ctx.scale((2, 3), (8, 25))
+    for path in PING_PATHS:
+        for mx in (1, 2, 3):
+            for _ in range(preps):
+                cases.append(("cycle-" + path, cycle_script(rng, mx, path, pcyc)))
     return cases
 
 
@@ -340,6 +377,15 @@ def oracle(mx, mode, toks, res, final_at):
         elif op in ("wl", "wg", "wa", "wf", "wx"):
             if live.get(i) == "w":
                 del live[i]
+        elif op == "wi":
+            # the client went silent; the server is to close the session for inactivity and -- whatever its handlers
+            # are doing -- the slot is to come back within the bounded wait (checked below through `av`)
+            if live.get(i) == "w":
+                del live[i]
+                server_closed = (st == "c")
+                slot_back = (av == "?" or int(av) >= mx - len(live))
+                if not server_closed and slot_back:
+                    bad.append(("stuck:wi", "step %d %s: the server did not close the silent session within the bounded wait" % (idx, tok)))
         if h != want_h:
             key = "handler-ran-for-refused" if i in refused else "handler-count"
             bad.append((key, "step %d %s: handler invocations %d -> %d, expected %d" % (idx, tok, h_prev, h, want_h)))
@@ -360,6 +406,11 @@ def norm_model(line, mx):
     if mx == 0:   # the guard handle is never seen by the harness at limit 0
         return " ".join(":".join([f.split(":")[0], "?", f.split(":")[2]]) for f in line.split())
     return line
+
+
+def impl_bin():
+    """VERIF_CONNGUARD_BIN overrides the implementation-side binary (a harness built against another tree)."""
+    return os.environ.get("VERIF_CONNGUARD_BIN") or vlib.rust_bin("connguard")
 
 
 def evaluate(ctx, cases, impl, model):
@@ -393,7 +444,7 @@ def evaluate(ctx, cases, impl, model):
 
 def run(ctx):
     ctx.engines = ["connguard (harness/src/bin/connguard.rs over a real Server on loop-back TCP vs modelrun/connguard_driver.ml over coq/Model/ConnGuard.v)"]
-    impl, model = vlib.rust_bin("connguard"), vlib.model_bin("connguard")
+    impl, model = impl_bin(), vlib.model_bin("connguard")
     cases = gen_cases(ctx)
     ctx.rng.shuffle(cases)      # long and short scripts evenly over the worker processes
     # a pilot slice first: on a broken server every step runs into its bounded wait, so when the pilot already
@@ -415,7 +466,7 @@ def replay(payload):
     if isinstance(case, dict) and "line" in case:
         line = case["line"] + "\n"
         outs = {}
-        for name, cmd in (("impl", vlib.rust_bin("connguard")), ("model", vlib.model_bin("connguard"))):
+        for name, cmd in (("impl", impl_bin()), ("model", vlib.model_bin("connguard"))):
             rc, out = vlib.sh([cmd], input=line)
             outs[name] = out.strip()
             print(name, "->", out.strip())
